@@ -176,6 +176,17 @@ time date, Decimal, BigDecimal, Uuid). Non-trivial = at least one parameter and 
     ctx.domain_restrictions.push("non-finite floats are not generated (no engine has literals for them)".into());
     let n = ctx.tier.pick(120_000, 3_000_000);
     ctx.run_proptest("statements", n, &case_strategy, &check);
+    // every parameter count up to a bound (C01's statements with exactly k bound values)
+    let max_params: u64 = ctx.tier.pick(1_300, 6_000);
+    ctx.run_indexed(
+        "parameter-counts",
+        max_params * 3,
+        &|i| {
+            let c = crate::props::c01::many_params_case(DIALECTS[(i % 3) as usize], 1 + (i / 3) as usize);
+            Case { dialect: c.dialect, stmt: c.stmt, values: vec![] }
+        },
+        &check,
+    );
 }
 
 pub fn replay(_part: &str, case: &J, obs: &mut Obs) -> R {
